@@ -69,9 +69,11 @@ def write_libs(root, libs):
                 open(init, "w").close()
         with open(os.path.join(d, "cmds.py"), "w") as f:
             f.write("from mpilot.commands import Command\nfrom mpilot import params\n\n")
-            for n in names:
-                f.write("class %s(Command):\n    inputs = {}\n    output = params.Parameter()\n\n"
-                        "    def execute(self, **kwargs):\n        return %r\n\n" % (n, lib + "." + n))
+            for k, n in enumerate(names):
+                # every second command is registered under an explicit `name` that differs from its class name
+                cls_name, extra = (n, "") if k % 2 == 0 else (n + "Command", "    name = %r\n" % n)
+                f.write("class %s(Command):\n%s    inputs = {}\n    output = params.Parameter()\n\n"
+                        "    def execute(self, **kwargs):\n        return %r\n\n" % (cls_name, extra, lib + "." + n))
 
 
 def module_commands(libs):
